@@ -300,7 +300,7 @@ def pick_T(o, m, meta, exact=0.3):
     return round(o.choice(temps) + o.uniform(-4, 9), 2)
 
 
-def permeate_kw(o, T, calc="NRTL", both=0.04):
+def permeate_kw(o, T, calc="NRTL", both=0.08):
     r = o.random()
     if r < both:
         return {"permeate_temperature": round(T - 60, 2), "permeate_pressure": 0.1}     # contradictory: must raise
@@ -438,7 +438,7 @@ def g_nonideal_curve(o, M):
 
 def _process_common(o, M, a):
     a["number_of_steps"] = o.choice([1, 2, 3, 5, 8, 12, 15])
-    a["delta_hours"] = wg.rnd(o, 0.05, 0.5, 3) if o.random() < 0.85 else o.choice([5.0, 20.0])   # large: exhausts the feed
+    a["delta_hours"] = wg.rnd(o, 0.05, 0.5, 3) if o.random() < 0.75 else o.choice([2.0, 5.0, 20.0])   # large: exhausts the feed after k steps
     if o.random() < 0.2:
         a["precision"] = o.choice([1e-3, 1e-4, 1e-6])
     a.update(calc_kw(o, 0.12))
@@ -575,6 +575,12 @@ def meas_info(M, k):
         return len(ms["points"]), len({p[1] for p in ms["points"]})
     s = M.set_meta(ms["from_set"])
     return s.get("n_points", 10), s["n_curves"]
+
+
+def g_pool_measurements(o, M):
+    n = len(M.spec["measurements"])
+    k = o.randint(2, 3)
+    return {"fn": "pool_measurements", "args": {"sources": [ref("measurements", o.randrange(n)) for _ in range(k)]}}
 
 
 def g_fit(o, M, best=None, allow_none=True, max_n=3, max_m=3):
@@ -718,6 +724,8 @@ def execute(ctx, plan, stats=None, extra_oracles=None, prop="C20", names=None):
         now = T0_US
         seen = {}
         prev_fns = []
+        executed = []      # (op, outcome of its fresh-state execution)
+        drifted = False    # module/class-level or interpreter-level state changed during the history
         for op in plan["ops"]:
             st["ops"] += 1
             ck = op.get("clock") or {"gap": 1000, "step": 1}
@@ -762,6 +770,11 @@ def execute(ctx, plan, stats=None, extra_oracles=None, prop="C20", names=None):
             if rep.get("interpreter_state_changed"):
                 st["probe_interpreter_state_changed"] = st.get("probe_interpreter_state_changed", 0) + 1
                 rec["interp_changed"] = rep["interpreter_state_changed"]
+            if rep.get("library_state_changed"):
+                st["probe_library_state_changed"] = st.get("probe_library_state_changed", 0) + 1
+                rec["lib_changed"] = rep["library_state_changed"]
+                drifted = True
+            executed.append((op, ro))
             # --- repeat oracle
             key = op_key(op)
             if key in seen:
@@ -775,6 +788,30 @@ def execute(ctx, plan, stats=None, extra_oracles=None, prop="C20", names=None):
                     rec.update(more)
             trace.append(rec)
             last_ok = (op, ho)
+        # --- witness calls: if hidden library-/interpreter-level state drifted during the history, every
+        # call of the history is made once more at the end (and a few default-argument calls are added);
+        # each must still equal its fresh-state outcome.  Only a differing outcome is a violation.
+        truncated = bool(trace) and trace[-1].get("outcome") == "budget"
+        if (drifted or any(r.get("interp_changed") for r in trace)) and not truncated:
+            st["witness_runs"] = st.get("witness_runs", 0) + 1
+            wit = [(dict(op, id="witness-%s" % op.get("id")), ro) for op, ro in executed]
+            for wop in witness_battery(plan):
+                r0 = fresh.op(wop, {"start": now + DECADE_US, "step": 1}, fresh=True)
+                wit.append((wop, outcome_of(r0)))
+            for wop, ro in wit:
+                now += 1000
+                rw = hist.op(wop, {"start": now, "step": 1})
+                st["witness_calls"] = st.get("witness_calls", 0) + 1
+                hw = outcome_of(rw)
+                if hw == "budget" or ro == "budget":
+                    break
+                if hw != ro:
+                    raise Violation(names["fresh"], wop, {"history": hw, "fresh": ro, "note": "witness call after hidden state drift",
+                                                          "drift": [r.get("lib_changed") or r.get("interp_changed") for r in trace if r.get("lib_changed") or r.get("interp_changed")][:3],
+                                                          "previous_calls": prev_fns})
+                if rw.get("snapshot_changed"):
+                    raise Violation(names["snapshot"], wop, {"changed": rw["snapshot_changed"], "note": "witness call"})
+            trace.append({"witness": len(wit)})
         # --- the fork shortcut itself is checked: last call again in a brand-new interpreter
         if plan.get("new_interpreter_ref") and plan["ops"] and trace and trace[-1].get("fn") and trace[-1].get("outcome") != "budget":
             from .lane import Zygote
@@ -808,6 +845,23 @@ def execute(ctx, plan, stats=None, extra_oracles=None, prop="C20", names=None):
     return {"trace": trace, "trace_digest": digest(trace), "violation": violation, "coverage_sig": cov, "nontrivial": nontrivial}
 
 
+def witness_battery(plan):
+    """Default-argument calls on built-in objects (explicit data: part of the replayable plan's semantics)."""
+    ops = []
+    for mix, T, x in (("H2O_EtOH", 333.15, 0.3), ("MeOH_Toluene", 318.15, 0.6)):
+        ops.append({"fn": "get_partial_pressures", "id": "battery", "args": {"temperature": T, "mixture": {"$m": {"builtin": mix}}, "composition": {"$new_comp": [x, "weight"]}}})
+        ops.append({"fn": "calculate_activity_coefficients", "id": "battery", "args": {"temperature": T, "mixture": {"$m": {"builtin": mix}}, "composition": {"$new_comp": [x, "molar"]}}})
+    spec = plan["world"]
+    for i, (mi, mixref) in enumerate(spec.get("pvs", [])[:4]):
+        m = spec["membranes"][mi]
+        if m.get("has_ideal") and (m.get("ideal_temps") or []):
+            ops.append({"fn": "partial_fluxes", "id": "battery", "args": {"pv": ref("pvs", i), "feed_temperature": m["ideal_temps"][0] + 2.5,
+                                                                            "composition": {"$new_comp": [0.35, "weight"]}}})
+    for k in range(min(2, len(spec.get("measurements", [])))):
+        ops.append({"fn": "fit", "id": "battery", "args": {"data": ref("measurements", k), "n": 1, "m": 0}})
+    return ops
+
+
 def signature(violation):
     if not violation:
         return None
@@ -826,3 +880,157 @@ def summarize(plan):
             s += "(" + ",".join(refs) + ")"
         out.append(s)
     return out
+
+
+# =========================================================================================
+# world pruning (used by the shrinker): keep only what the remaining ops reference
+# =========================================================================================
+
+POOLS = ["custom_components", "custom_mixtures", "membranes", "compositions", "permeances", "perm_tuples", "programs", "conditions",
+         "comp_lists", "curve_sets", "curves", "measurements", "functions", "vle", "pvs"]
+POOL_OF_REF = {"components": "custom_components", "mixtures": "custom_mixtures"}
+
+
+def _walk_refs(v, fn):
+    """Call fn(kind, holder, key) for every reference inside a JSON value (kind: '$', '$c', '$m')."""
+    if isinstance(v, dict):
+        for k in list(v):
+            if k == "$":
+                fn("$", v, k)
+            elif k in ("$c", "$m"):
+                fn(k, v, k)
+            else:
+                _walk_refs(v[k], fn)
+    elif isinstance(v, list):
+        for x in v:
+            _walk_refs(x, fn)
+
+
+def prune_world(plan):
+    import copy as _copy
+    p = _copy.deepcopy(plan)
+    spec = p["world"]
+    need = {k: set() for k in POOLS}
+
+    def mark_custom(kind, r):
+        if isinstance(r, dict) and "custom" in r:
+            need["custom_components" if kind == "c" else "custom_mixtures"].add(r["custom"])
+
+    def on_ref(kind, holder, key):
+        if kind == "$":
+            pool, idx = holder["$"]
+            need[POOL_OF_REF.get(pool, pool)].add(idx)
+        else:
+            mark_custom(kind[1], holder[key])
+
+    for op in p["ops"]:
+        _walk_refs(op.get("args"), on_ref)
+        if op.get("loss_on") is not None:
+            need["measurements"].add(op["loss_on"])
+        if op.get("objective_on") is not None:
+            need["vle"].add(op["objective_on"])
+    # closure
+    changed = True
+    while changed:
+        before = sum(len(v) for v in need.values())
+        for i in list(need["pvs"]):
+            need["membranes"].add(spec["pvs"][i][0])
+            mark_custom("m", spec["pvs"][i][1])
+        for i in list(need["conditions"]):
+            c = spec["conditions"][i]
+            need["compositions"].add(c["comp_ref"])
+            if c.get("program_ref") is not None:
+                need["programs"].add(c["program_ref"])
+        for i in list(need["comp_lists"]):
+            need["compositions"].update(spec["comp_lists"][i])
+        for i in list(need["perm_tuples"]):
+            need["permeances"].update(spec["perm_tuples"][i])
+        for i in list(need["curves"]):
+            c = spec["curves"][i]
+            if "from_set" in c:
+                need["curve_sets"].add(c["from_set"])
+            else:
+                need["compositions"].update(c.get("comp_refs") or [])
+                need["perm_tuples"].update(c.get("perm_tuple_refs") or [])
+                mark_custom("m", c["mixture"])
+        for i in list(need["measurements"]):
+            if "from_set" in spec["measurements"][i]:
+                need["curve_sets"].add(spec["measurements"][i]["from_set"])
+        for i in list(need["curve_sets"]):
+            c = spec["curve_sets"][i]
+            if isinstance(c, dict):
+                need["curve_sets"].add(c["molar_copy_of"])
+            else:
+                need["membranes"].add(c[0])
+        for i in list(need["membranes"]):
+            m = spec["membranes"][i]
+            if m.get("constructed"):
+                mark_custom("m", m.get("mixture_ref") or {})
+                for e in m["experiments"]:
+                    mark_custom("c", e["component"])
+        for i in list(need["custom_mixtures"]):
+            mark_custom("c", spec["custom_mixtures"][i]["first"])
+            mark_custom("c", spec["custom_mixtures"][i]["second"])
+        changed = sum(len(v) for v in need.values()) != before
+    if all(len(need[k]) == len(spec.get(k, [])) for k in POOLS):
+        return None
+    remap = {k: {old: new for new, old in enumerate(sorted(need[k]))} for k in POOLS}
+
+    def fix_custom(kind, r):
+        if isinstance(r, dict) and "custom" in r:
+            r["custom"] = remap["custom_components" if kind == "c" else "custom_mixtures"][r["custom"]]
+
+    def rewrite(kind, holder, key):
+        if kind == "$":
+            pool, idx = holder["$"]
+            holder["$"] = [pool, remap[POOL_OF_REF.get(pool, pool)][idx]]
+        else:
+            fix_custom(kind[1], holder[key])
+
+    for op in p["ops"]:
+        _walk_refs(op.get("args"), rewrite)
+        if op.get("loss_on") is not None:
+            op["loss_on"] = remap["measurements"][op["loss_on"]]
+        if op.get("objective_on") is not None:
+            op["objective_on"] = remap["vle"][op["objective_on"]]
+    new = {}
+    for k in POOLS:
+        new[k] = [_copy.deepcopy(spec[k][i]) for i in sorted(need[k])] if k in spec else []
+    for pv in new["pvs"]:
+        pv[0] = remap["membranes"][pv[0]]
+        fix_custom("m", pv[1])
+    for c in new["conditions"]:
+        c["comp_ref"] = remap["compositions"][c["comp_ref"]]
+        if c.get("program_ref") is not None:
+            c["program_ref"] = remap["programs"][c["program_ref"]]
+    new["comp_lists"] = [[remap["compositions"][j] for j in l] for l in new["comp_lists"]]
+    new["perm_tuples"] = [[remap["permeances"][j] for j in t] for t in new["perm_tuples"]]
+    for c in new["curves"]:
+        if "from_set" in c:
+            c["from_set"] = remap["curve_sets"][c["from_set"]]
+        else:
+            if c.get("comp_refs") is not None:
+                c["comp_refs"] = [remap["compositions"][j] for j in c["comp_refs"]]
+            if c.get("perm_tuple_refs") is not None:
+                c["perm_tuple_refs"] = [remap["perm_tuples"][j] for j in c["perm_tuple_refs"]]
+            fix_custom("m", c["mixture"])
+    for ms in new["measurements"]:
+        if "from_set" in ms:
+            ms["from_set"] = remap["curve_sets"][ms["from_set"]]
+    cs = []
+    for c in new["curve_sets"]:
+        if isinstance(c, dict):
+            cs.append({"molar_copy_of": remap["curve_sets"][c["molar_copy_of"]]})
+        else:
+            cs.append([remap["membranes"][c[0]], c[1]])
+    new["curve_sets"] = cs
+    for m in new["membranes"]:
+        if m.get("constructed"):
+            fix_custom("m", m.get("mixture_ref") or {})
+            for e in m["experiments"]:
+                fix_custom("c", e["component"])
+    for mx in new["custom_mixtures"]:
+        fix_custom("c", mx["first"])
+        fix_custom("c", mx["second"])
+    p["world"] = new
+    return p
